@@ -220,9 +220,93 @@ def teardown(repo):
     return {"run_tail": tail, "close_seq": [e for e, _ in cl], "event_clear_guarded": guarded}
 
 
+WAIT_TARGETS = [("transport.py", "Transport", "open_channel", "open_channel"),
+                ("transport.py", "Transport", "global_request", "global_request"),
+                ("transport.py", "Transport", "renegotiate_keys", "renegotiate_keys"),
+                ("transport.py", "Transport", "start_client", "start_client"),
+                ("auth_handler.py", "AuthHandler", "wait_for_response", "auth_wait_for_response"),
+                ("transport.py", "Transport", "_send_user_message", "send_user_message"),
+                ("channel.py", "Channel", "_wait_for_event", "channel_request"),
+                ("channel.py", "Channel", "recv_exit_status", "recv_exit_status"),
+                ("buffered_pipe.py", "BufferedPipe", "read", "recv"),
+                ("channel.py", "Channel", "_wait_for_send_window", "send"),
+                ("transport.py", "Transport", "accept", "accept"),
+                ("transport.py", "ServiceRequestingTransport", "ensure_session", "ensure_session")]
+_ACTIVE = ("self.active", "is_active()", "self.transport.active")
+_FLAGS = ("self.closed", "self._closed", "self.eof_sent")
+
+
+def _exits(stmts):
+    return any(isinstance(x, (ast.Raise, ast.Return, ast.Break)) for st in stmts for x in ast.walk(st))
+
+
+def wait_shapes(repo):
+    """How each blocking API waits, read off its AST: every ``X.wait(..)`` / ``time.sleep(..)`` in the function.
+    kind: poll (numeric time-out or sleep inside a loop) | event (untimed wait on an Event, no loop) | cvLoop (untimed
+    wait inside a while loop) | cvOnce (untimed single wait on a condition variable).  A wait whose time-out is a
+    variable is treated as untimed (the caller may pass None).  precheck: a test of ``not self.active`` before the wait
+    that leaves without waiting; loopChecksActive / loopChecksFlag: the loop around the wait tests the transport's
+    ``active`` / the object's closed flag and leaves."""
+    out = []
+    for fn, cls, name, row in WAIT_TARGETS:
+        path = os.path.join(repo, "paramiko", fn)
+        f = _find_func(ast.parse(open(path).read()), cls, name) if os.path.exists(path) else None
+        if f is None:
+            out.append({"row": row, "kind": "missing", "obj": "", "precheck": False, "loopChecksActive": False,
+                        "loopChecksFlag": False})
+            continue
+        par = {}
+        for n in ast.walk(f):
+            for c in ast.iter_child_nodes(n):
+                par[c] = n
+        waits = [n for n in ast.walk(f) if isinstance(n, ast.Call) and isinstance(n.func, ast.Attribute)
+                 and n.func.attr in ("wait", "sleep")]
+        if not waits:
+            out.append({"row": row, "kind": "nowait", "obj": "", "precheck": False, "loopChecksActive": False,
+                        "loopChecksFlag": False})
+            continue
+        for k, w in enumerate(sorted(waits, key=lambda n: (n.lineno, n.col_offset))):
+            timed = bool(w.args) and isinstance(w.args[0], ast.Constant) and \
+                isinstance(w.args[0].value, (int, float)) and not isinstance(w.args[0].value, bool)
+            loop, n = None, w
+            while n in par:
+                n = par[n]
+                if isinstance(n, ast.While):
+                    loop = n
+                    break
+            obj = _src(w.func.value)
+            chk_active = chk_flag = False
+            if loop is not None:
+                for st in ast.walk(loop):
+                    if isinstance(st, ast.If) and _exits(st.body):
+                        t = _src(st.test)
+                        chk_active = chk_active or any(a in t for a in _ACTIVE)
+                        chk_flag = chk_flag or any(a in t for a in _FLAGS)
+                t = _src(loop.test)
+                chk_flag = chk_flag or any(("not " + a) in t for a in _FLAGS)
+            pre = False
+            for st in ast.walk(f):
+                if isinstance(st, ast.If) and "not self.active" in _src(st.test) and st.lineno < w.lineno and \
+                        not any(x is w for b in st.body for x in ast.walk(b)) and \
+                        (loop is None or not any(x is st for x in ast.walk(loop))):
+                    pre = True
+            if w.func.attr == "sleep" or (timed and loop is not None):
+                kind = "poll"
+            elif loop is not None:
+                kind = "cvLoop"
+            elif "event" in obj:
+                kind = "event"
+            else:
+                kind = "cvOnce"
+            out.append({"row": row if k == 0 else "%s#%d" % (row, k + 1), "kind": kind, "obj": obj, "precheck": pre,
+                        "loopChecksActive": chk_active, "loopChecksFlag": chk_flag})
+    return out
+
+
 def lean_table(repo):
     ss = sites(repo)
     td = teardown(repo)
+    ws = wait_shapes(repo)
     lines = ["/- GENERATED by pv/lib_lockdisc.py from paramiko/*.py — do not edit. -/",
              "namespace PV.Generated.C13", "",
              "structure LockSite where", "  file : String", "  func : String", "  lock : String", "  safe : Bool",
@@ -239,5 +323,15 @@ def lean_table(repo):
               "def closeSeq : List String := [" + ", ".join('"%s"' % e for e in td["close_seq"]) + "]", "",
               "/-- `Channel._event_pending` clears the request event only while the channel is open, under the channel lock -/",
               "def eventClearGuarded : Bool := %s" % ("true" if td["event_clear_guarded"] else "false"), "",
+              "structure WaitShape where", "  row : String", "  kind : String", "  obj : String", "  precheck : Bool",
+              "  loopChecksActive : Bool", "  loopChecksFlag : Bool", "  deriving Repr, DecidableEq", "",
+              "/-- every `X.wait(..)` / `time.sleep(..)` in the functions behind the blocking APIs, classified -/",
+              "def waitShapes : List WaitShape := [",
+              ",\n".join('  { row := "%s", kind := "%s", obj := "%s", precheck := %s, loopChecksActive := %s, '
+                         'loopChecksFlag := %s }' % (w["row"], w["kind"], w["obj"].replace('"', "'"),
+                                                     "true" if w["precheck"] else "false",
+                                                     "true" if w["loopChecksActive"] else "false",
+                                                     "true" if w["loopChecksFlag"] else "false") for w in ws),
+              "]", "",
               "end PV.Generated.C13", ""]
     return "\n".join(lines), ss
